@@ -24,32 +24,34 @@ type RunSpec struct {
 	Replay    bool     `json:"replay"`
 	Trace     bool     `json:"-"`
 	FaultFree bool     `json:"fault_free"`
-	Mode      string   `json:"mode,omitempty"` // plan-specific variant (e.g. "reference")
+	Mode      string   `json:"mode,omitempty"` // plan-specific variant ("sweep-base", "sweep")
+	SweepAt   int      `json:"sweep_at,omitempty"`
+	SweepKind string   `json:"sweep_kind,omitempty"`
 }
 
 // RunResult is what one execution produced.
 type RunResult struct {
-	Spec       RunSpec          `json:"spec"`
-	Viol       []Violation      `json:"violations,omitempty"`
-	Incidental []Violation      `json:"incidental,omitempty"`
-	Sch        []uint32         `json:"sch"`
-	Scn        []uint32         `json:"scn"`
-	Hash       uint64           `json:"hash"`
-	ILSig      uint64           `json:"il_sig"`
-	Exercised  bool             `json:"exercised"`
-	Steps      int              `json:"steps"`
-	Requests   int              `json:"requests"`
-	Passes     int              `json:"passes"`
-	SimSeconds float64          `json:"sim_seconds"`
-	Faults     map[string]int   `json:"faults,omitempty"`
-	Probes     map[string]int   `json:"probes,omitempty"`
-	States     []uint64         `json:"states,omitempty"`
-	Capped     bool             `json:"capped,omitempty"`
-	Inconcl    bool             `json:"inconclusive,omitempty"`
-	Desc       []string         `json:"desc,omitempty"`
-	Trace      []string         `json:"trace,omitempty"`
-	Machinery  string           `json:"machinery,omitempty"`
-	Extra      map[string]any   `json:"extra,omitempty"`
+	Spec       RunSpec        `json:"spec"`
+	Viol       []Violation    `json:"violations,omitempty"`
+	Incidental []Violation    `json:"incidental,omitempty"`
+	Sch        []uint32       `json:"sch"`
+	Scn        []uint32       `json:"scn"`
+	Hash       uint64         `json:"hash"`
+	ILSig      uint64         `json:"il_sig"`
+	Exercised  bool           `json:"exercised"`
+	Steps      int            `json:"steps"`
+	Requests   int            `json:"requests"`
+	Passes     int            `json:"passes"`
+	SimSeconds float64        `json:"sim_seconds"`
+	Faults     map[string]int `json:"faults,omitempty"`
+	Probes     map[string]int `json:"probes,omitempty"`
+	States     []uint64       `json:"states,omitempty"`
+	Capped     bool           `json:"capped,omitempty"`
+	Inconcl    bool           `json:"inconclusive,omitempty"`
+	Desc       []string       `json:"desc,omitempty"`
+	Trace      []string       `json:"trace,omitempty"`
+	Machinery  string         `json:"machinery,omitempty"`
+	Extra      map[string]any `json:"extra,omitempty"`
 }
 
 // Plan drives one run of a property: draws knobs, builds the scenario,
@@ -213,16 +215,17 @@ func (w *World) noteState() {
 
 // drawFaultMix enables a random subset of the given fault kinds (swarm).
 func (w *World) drawFaultMix(kinds ...string) {
-	if w.Cfg.FaultFree {
-		w.Cfg.FaultBudget = 0
-		return
-	}
+	// always consume the same choices so that a fault-free reference run of the
+	// same scenario stream generates the same scenario
 	for _, k := range kinds {
-		if w.Scn.Chance(1, 2, "fault-kind-"+k) {
+		if w.Scn.Chance(1, 2, "fault-kind-"+k) && !w.Cfg.FaultFree {
 			w.Cfg.Faults[k] = true
 		}
 	}
 	w.Cfg.FaultBudget = w.Scn.Intn(7, "fault-budget")
+	if w.Cfg.FaultFree {
+		w.Cfg.FaultBudget = 0
+	}
 }
 
 // finish runs the calm phase and the end-of-run hooks.
